@@ -191,25 +191,27 @@ func VH_C13_tai_list() {
 		hi = 6
 	}
 	n := vrt.Choose("n", 1, hi)
-	same := vrt.Bool("samePlmn")
 	p0 := c13mkplmn("a")
 	p1 := c13mkplmn("b")
-	if !same {
-		vrt.Assume(p0.id.Mcc != p1.id.Mcc || p0.id.Mnc != p1.id.Mnc)
-	}
+	vrt.Assume(p0.id.Mcc != p1.id.Mcc || p0.id.Mnc != p1.id.Mnc) // two different PLMNs
 	var list []models.Tai
 	var tacs [][]byte
 	var plmns []c13plmn
+	allSame := true
 	for i := 0; i < n; i++ {
 		tac := vrt.Bytes(fmt.Sprintf("tac%d", i), 3)
 		p := p0
-		if !same && i == n-1 && n > 1 {
-			p = p1 // the last entry is in another PLMN
+		// every entry independently in PLMN a or b: every pattern (a,a,b / a,b,a / b,a,a / ...) is a path
+		if vrt.Choose(fmt.Sprintf("plmnOf%d", i), 0, 1) == 1 {
+			p = p1
 		}
 		id := p.id
 		list = append(list, models.Tai{PlmnId: &id, Tac: c13hexOf(tac)})
 		tacs = append(tacs, tac)
 		plmns = append(plmns, p)
+		if i > 0 && plmns[i].oct != plmns[0].oct {
+			allSame = false
+		}
 	}
 	out := TaiListToNas(list)
 	// decoder per 9.11.3.9
@@ -218,15 +220,16 @@ func VH_C13_tai_list() {
 	cnt := int(out[0]&0x1f) + 1
 	vrt.Assert(out[0]&0x80 == 0, "TAI list spare bit is zero")
 	vrt.Assert(cnt == n, "number of elements field = entries - 1")
-	if same || n == 1 {
-		vrt.Assert(typ == 0, "one PLMN, non-consecutive TACs: type of list 00")
+	if typ == 0 {
+		vrt.Assert(allSame, "type of list 00 only when every TAI is in the same PLMN")
 		vrt.Assert(len(out) == 4+3*n, "type 00: header, PLMN, n TACs")
-		vrt.Assert(out[1] == p0.oct[0] && out[2] == p0.oct[1] && out[3] == p0.oct[2], "type 00: PLMN octets")
 		for i := 0; i < n; i++ {
+			// a decoder gives every TAI of a type-00 list the one PLMN of the list
+			vrt.Assert(out[1] == plmns[i].oct[0] && out[2] == plmns[i].oct[1] && out[3] == plmns[i].oct[2], "type 00: the list PLMN is the PLMN of every TAI")
 			vrt.Equal(out[4+3*i:7+3*i], tacs[i], "type 00: TACs in order")
 		}
 	} else {
-		vrt.Assert(typ == 2, "different PLMNs: type of list 10")
+		vrt.Assert(typ == 2, "several PLMNs: type of list 10")
 		vrt.Assert(len(out) == 1+6*n, "type 10: header, n (PLMN, TAC) pairs")
 		for i := 0; i < n; i++ {
 			vrt.Equal(out[1+6*i:4+6*i], plmns[i].oct[:], "type 10: PLMN of each TAI")
